@@ -75,14 +75,14 @@ GENERATORS = [_gen_livetiming]
 TRUSTED = [
     "harness/pytolean.py + harness/gen_livetiming.py (Python ast -> Lean): the mapping of the datetime/float idioms of timing.py to integer microsecond arithmetic (table in gen_livetiming.py; floorMonth/floorYear and round() are parameters instantiated by the calendar walk / round-half-even and validated by the calendar and mupdefault channels); logging statements are not translated",
     "Python datetime/date arithmetic (proleptic Gregorian calendar, timedelta subtraction) as the reference for the calendar walk and for converting real datetimes to integer microseconds",
-    "integer reading of the float steps of calculate_live_params (total_seconds()==0, <depth, int(), //mup, round(2.0*sd/ts)); argued exact for |elapsed| < 2^33 s and segment_duration < 2^51, validated by the livetiming/mupdefault channels",
+    "integer reading of the remaining float steps of calculate_live_params (total_seconds()==0, <depth, int(), round(2.0*sd/ts)); exact for elapsed < 2^33 s or depth below the age, and segment_duration < 2^51; validated by the livetiming/mupdefault channels",
     "/verif/shims (flask_login, sqlalchemy_jsonfield, dotenv, netifaces stand-ins) and appboot.Clock for the manifest channel; Jinja rendering and Flask routing are used, not modelled",
     "OptionsRepository.get_default_options() / manifest_map[...].features are read from the real code to know which defaults apply to an absent CGI parameter in the manifest channel",
 ]
 ASSUMPTIONS = [
-    "now is a tz-aware UTC instant at or after 1970-01-01T00:00:00Z (every call site uses datetime.now(tz=UTC())); generators sweep 1970..2200",
+    "now is a tz-aware UTC instant (every call site uses datetime.now(tz=UTC())); the Lean model covers clocks at or after 1970-01-01T00:00:00Z (fixed grid up to 9999-12-31, random sweep 1970..2200); clocks in the years 100, 1479, 1900, 1969 are evaluated on the real code by the oracle only",
     "explicit start instants are <= now (C08's quantifier); starts in the future are compared model-vs-code only",
-    "elapsed time < 2^33 s (~272 years) so that timedelta.total_seconds() separates microseconds from whole seconds (float exactness bound of the integer model); timescale >= 1 and 1 <= segment_duration < 2^51",
+    "float steps: publishTime quantisation is exact integer arithmetic since f60cf82; `total_seconds() == 0` is always exact; only the depth clamp (`total_seconds() < depth`, `int(total_seconds())`) still goes through a float - exact while the stream is younger than 2^33 s or the requested depth is below its age; the remaining corner (age >= 2^33 s and depth beyond the age) is the open ledger entry depth-clamp-float-rounding-beyond-2^33s, reached through the oracle only; timescale >= 1 and 1 <= segment_duration < 2^51",
     "start=epoch is 'at least one minute old' only for clocks >= 1970-01-01T00:01:00Z (theorem symbolic_age_epoch_partial; unsatisfiable otherwise for any implementation; the excluded point is the open ledger entry epoch-start-young-before-1970-01-01T00:01Z, replayed every run; generators keep start=epoch inside the hypothesis)",
     "'publishTime never decreases as now advances' is checked for every pair of requests; it does not hold across a roll-over of today/month/year (the two requests resolve different availabilityStartTime values): open ledger entry publish-steps-back-across-symbolic-rollover, replayed every run, step-back < one period (theorem publish_mono_across_restart); generators draw such pairs and the oracle failures of exactly that class are matched to the entry, everything else is a violation",
     "naive explicit start strings (no Z/offset) are not instants; they make the handler fail with a TypeError (HTTP 500) - a C16 matter, not generated here",
@@ -182,11 +182,12 @@ def driver_lines(c) -> list[str]:
 SPECIAL_YEARS = [1970, 1971, 1972, 1999, 2000, 2001, 2023, 2024, 2025, 2038, 2099, 2100, 2101, 2199, 2200]
 TOD = [0, 1, 999_999, US, US + 1, 59 * US, MINUTE - 1, MINUTE, MINUTE + 1, 61 * US, 3599 * US + 999_999,
        3600 * US, 43200 * US, DAY - US, DAY - 1]
-OFFSETS = [0, 0, 0, 60, 330, 345, -480, -210, 765, 840, -720, 1, -1]
+OFFSETS = [0, 0, 0, 60, 330, 345, -480, -210, -30, 765, 840, -720, 1, -1, 900, -870, 1439]
 REFS = [(960, 240), (960, 240), (1000, 1000), (10, 100), (1, 1000), (24, 100), (25, 100), (26, 100), (75, 100),
-        (125, 100), (176128, 44100), (360360, 90000), (540000, 90000), (2 ** 40, 3), (1, 1), (3, 2)]
+        (125, 100), (176128, 44100), (360360, 90000), (540000, 90000), (2 ** 40, 3), (1, 1), (3, 2), (1001, 30000),
+        (60060, 30000), (4 * 10 ** 7, 10 ** 7)]
 HTTP_REFS = [(960, 240), (1000, 1000), (10, 100), (24, 100), (25, 100), (26, 100), (75, 100), (125, 100),
-             (176128, 44100), (360360, 90000), (540000, 90000), (3, 2)]
+             (176128, 44100), (360360, 90000), (540000, 90000), (3, 2), (60060, 30000)]
 DEPTHS = [None, None, 0, -1, -5, -3600, 1, 2, 30, 60, 61, 1800, 86400, 10 ** 7]
 MUPS = [None, None, 0, -1, -7, 1, 2, 3, 4, 7, 8, 30, 59, 60, 61, 3600, 86400, 99991]
 LEEWAYS = [None, 0, 16, 60, -3]
@@ -253,7 +254,7 @@ def gen_case(rng, future_ok: bool = True) -> dict:
         delta = rng.choice([0, 0, 1, 200_000, 500_000, 999_999, US, US + 500_000, p - 1, p, 59 * US, MINUTE,
                             DAY, 365 * DAY, rng.randrange(120 * US), rng.randrange(50 * 365 * DAY)])
         lo = to_us(datetime.datetime(1900, 1, 2, tzinfo=datetime.timezone.utc))
-        s = max(n0 - delta, lo, nows[-1] - MAX_ELAPSED)
+        s = max(n0 - delta, lo, nows[-1] - MAX_ELAPSED)   # (only the depth clamp still goes through a float)
         k = rng.random()
         if k < .4:
             s -= s % US                      # whole second
@@ -315,11 +316,17 @@ def run_direct(c) -> list[dict]:
             if opts is None:
                 opts = real_options(c)       # calculate_live_params only reads the options
             t = DashTiming(real_now(n), ref, opts)
-            off = t.availabilityStartTime.utcoffset() // datetime.timedelta(minutes=1)
-            out.append({"now": n, "ast": to_us(t.availabilityStartTime), "off": off,
-                        "e": t.elapsedTime // ONE_US, "tsbd": t.timeShiftBufferDepth,
-                        "fat": t.firstAvailableTime // ONE_US, "pub": to_us(t.publishTime),
-                        "mup": t.minimumUpdatePeriod, "leeway": t.leeway // ONE_US})
+            m = t.generate_manifest_context()     # what the manifest templates are given
+            off = m.availabilityStartTime.utcoffset() // datetime.timedelta(minutes=1)
+            r = {"now": n, "ast": to_us(m.availabilityStartTime), "off": off,
+                 "e": m.elapsedTime // ONE_US, "tsbd": m.timeShiftBufferDepth,
+                 "fat": t.firstAvailableTime // ONE_US, "pub": to_us(m.publishTime),
+                 "mup": m.minimumUpdatePeriod, "leeway": t.leeway // ONE_US}
+            attrs = (to_us(t.availabilityStartTime), t.elapsedTime // ONE_US, t.timeShiftBufferDepth,
+                     to_us(t.publishTime), t.minimumUpdatePeriod, to_us(t.now), to_us(m.now))
+            if attrs != (r["ast"], r["e"], r["tsbd"], r["pub"], r["mup"], n, n):
+                r = {"now": n, "exc": "ManifestContextDiffersFromAttributes"}
+            out.append(r)
         except Exception as e:   # noqa: BLE001 – the kind is the observable
             out.append({"now": n, "exc": type(e).__name__})
     return out
@@ -362,11 +369,10 @@ def oracle(c, results: list[dict], http: bool = False) -> list[dict]:
             bad(i, "timeShiftBufferDepth missing (unlimited) or malformed")
         else:
             if not (0 <= tsbd and tsbd * US <= now - ast):
-                bad(i, "0 <= timeShiftBufferDepth <= now - availabilityStartTime", tsbd=str(tsbd), ast=ast)
+                bad(i, TSBD_CLAUSE, tsbd=str(tsbd), ast=ast)
             if not http:
                 if r["fat"] != now - ast - tsbd * US or r["fat"] < 0:
-                    bad(i, "firstAvailableTime = now - availabilityStartTime - timeShiftBufferDepth >= 0",
-                        fat=r["fat"], ast=ast, tsbd=tsbd)
+                    bad(i, FAT_CLAUSE, fat=r["fat"], ast=ast, tsbd=tsbd)
         if mup is not None and pub is not None:
             if mup <= 0:
                 bad(i, "minimumUpdatePeriod is a positive period", mup=str(mup))
@@ -418,8 +424,33 @@ def is_rollover(f: dict) -> bool:
     return a[0] != a[1] and 0 < p[0] - p[1] < period
 
 
+FLOAT_CLASS = "depth-clamp-float-rounding-beyond-2^33s"
+TSBD_CLAUSE = "0 <= timeShiftBufferDepth <= now - availabilityStartTime"
+FAT_CLAUSE = "firstAvailableTime = now - availabilityStartTime - timeShiftBufferDepth >= 0"
+
+
+def is_float_depth(f: dict) -> bool:
+    """the second known deviation (open ledger entry of class FLOAT_CLASS): the stream is older than 2^33 s,
+    the requested depth exceeds its age, and `int(elapsedTime.total_seconds())` (a float) rounds the age up to
+    the next whole second – the depth exceeds the age by less than one second"""
+    if f.get("clause") not in (TSBD_CLAUSE, FAT_CLAUSE) or not isinstance(f.get("now"), int) or "ast" not in f:
+        return False
+    try:
+        e = f["now"] - f["ast"]
+        over = int(f["tsbd"]) * US - e
+    except (TypeError, ValueError):
+        return False
+    if not (e >= 2 ** 33 * US and 0 < over < US):
+        return False
+    return f["clause"] == TSBD_CLAUSE or f.get("fat") == -over
+
+
+def known_class(f: dict):
+    return ROLLOVER_CLASS if is_rollover(f) else FLOAT_CLASS if is_float_depth(f) else None
+
+
 def unlisted(fails: list[dict]) -> list[dict]:
-    return [f for f in fails if not is_rollover(f)]
+    return [f for f in fails if known_class(f) is None]
 
 
 def failure_record(via: str, case_h: dict, fails: list[dict], **kw) -> dict:
@@ -428,7 +459,8 @@ def failure_record(via: str, case_h: dict, fails: list[dict], **kw) -> dict:
     un = unlisted(fails)
     rec = {"via": via, "case": case_h, "failures": (un[:3] if un else fails), **kw}
     if not un:
-        rec["class"] = ROLLOVER_CLASS
+        classes = {known_class(f) for f in fails}
+        rec["class"] = classes.pop() if len(classes) == 1 else "mixed-known-classes"
     return rec
 
 
@@ -473,10 +505,17 @@ def direct_fails(c) -> list[dict]:
 
 def ch_calendar(ctx) -> Channel:
     ch = Channel("calendar", rule=(
-        "every day number 0…100075 (1970-01-01…2243-12-31): Lean calendar walk (civil date, first day of year, "
+        "every day number 0…100075 (1970-01-01…2243-12-31) plus the whole years 2400, 3000, 9999 and three days of "
+        "every 50th year to 9950: Lean calendar walk (civil date, first day of year, "
         "first day of month) vs datetime.date.fromordinal/replace; non-trivial = first or last day of a month, "
         "29 February, 1 January (distinct by day)"))
     days = list(range(LAST_DAY + 1))
+    # far future (checklist: 9999): whole years 2400, 3000, 9999 and 1 Jan / 1 Mar / 31 Dec of every 50th year
+    for y in (2400, 3000, 9999):
+        d0 = datetime.date(y, 1, 1).toordinal() - EPOCH_ORD
+        days += list(range(d0, datetime.date(y, 12, 31).toordinal() - EPOCH_ORD + 1))
+    for y in range(2250, 10000, 50):
+        days += [datetime.date(y, mo, d).toordinal() - EPOCH_ORD for mo, d in ((1, 1), (3, 1), (12, 31))]
     try:
         out = common.run_driver([f"calendar {d}" for d in days])
     except Exception as e:  # noqa: BLE001
@@ -498,6 +537,7 @@ def ch_calendar(ctx) -> Channel:
         if o != want:
             ch.disagreements.append({"via": "calendar", "day": d, "date": dt.isoformat(), "model": o, "python": want})
     ch.sample({"day": 19782, "date": "2024-02-29", "model": out[19782]})
+    ch.sample({"day": days[-1], "date": datetime.date.fromordinal(EPOCH_ORD + days[-1]).isoformat(), "model": out[-1]})
     ch.sample({"day": 47540, "date": datetime.date.fromordinal(EPOCH_ORD + 47540).isoformat(), "model": out[47540]})
     return ch
 
@@ -663,10 +703,93 @@ def boundary_cases(ctx):
     return out
 
 
+PHASES = [0, 1, 250_000, 499_999, 500_000, 750_000, 999_999]
+GRID_DAYS = [(1970, 1, 2), (2023, 3, 1), (2023, 12, 31), (2024, 1, 1), (2024, 2, 29), (2024, 3, 1), (2036, 2, 7),
+             (2038, 1, 19), (2040, 2, 6), (2100, 3, 1), (2242, 3, 17), (3000, 6, 1), (9999, 12, 31)]
+GRID_TOD = [0, 59, 60, 43200, 86399]             # seconds of the day
+BIG = [0, 1, -1, 2 ** 31 - 1, 2 ** 31 + 1, 2 ** 32 - 1, 2 ** 32 + 1, 2 ** 33 - 1, 2 ** 33 + 1, 2 ** 53 - 1,
+       2 ** 53 + 1, 2 ** 63 - 1]
+PAST_YEARS = [100, 1479, 1900, 1969]
+
+
+def day_us(y, m, d) -> int:
+    return (datetime.date(y, m, d).toordinal() - EPOCH_ORD) * DAY
+
+
+def grid_cases():
+    """the fixed (seed independent) part of the livetiming channel – every class of harness/CHECKLIST.md that
+    lies inside C08's quantifier, stratified by start kind:
+    * clock grid: 13 days (leap / non-leap Mar 1, Dec 31, Jan 1, NTP-era / 2038 / tkhd dates, 2100, the old
+      float bound 2242, 3000, 9999-12-31) × {00:00:00, 00:00:59, 00:01:00, 12:00:00, 23:59:59} × 7 sub-second
+      phases × the 5 symbolic starts, two requests each, depth/mup classes rotating;
+    * age grid: explicit start at age 0, 1 µs, ¼ s, ½ s, 1 s, depth−1 s, depth−1 µs, depth, depth+1 µs, depth+1 s
+      for depth ∈ {1, 30, absent(60), 1800}, offsets and phases rotating;
+    * numeric grid: depth × mup over 0, ±1, 2^31±1, 2^32±1, 2^33±1, 2^53±1, 2^63−1 for `today` and for an
+      explicit start one hour old;
+    * far past (years 100, 1479, 1900, 1969; the Lean model's day numbers start in 1970): oracle only;
+    * the known float class (stream older than 2^33 s and requested depth beyond its age): oracle only."""
+    out = []
+    k = 0
+    for (y, m, d) in GRID_DAYS:
+        for tod in GRID_TOD:
+            for ph in PHASES:
+                n = day_us(y, m, d) + tod * US + ph
+                for start in SYMBOLIC:
+                    k += 1
+                    nxt = n + [1, 750_000, US, 7 * US, MINUTE][k % 5]
+                    if y == 9999 and nxt // DAY != n // DAY:
+                        nxt = n                                   # year 10000 does not exist
+                    out.append({"nows": [n, nxt], "start": start, "depth": DEPTHS[k % len(DEPTHS)],
+                                "mup": MUPS[k % len(MUPS)], "leeway": LEEWAYS[k % len(LEEWAYS)],
+                                "sd": REFS[k % len(REFS)][0], "ts": REFS[k % len(REFS)][1]})
+    base = day_us(2024, 5, 6) + 25689 * US
+    for depth in (1, 30, None, 1800):
+        dd = (depth or 60) * US
+        for j, age in enumerate([0, 1, 250_000, 500_000, US, dd - US, dd - 1, dd, dd + 1, dd + US]):
+            for ph in PHASES:
+                k += 1
+                n = base + ph
+                out.append({"nows": [n, n + 499_999, n + US], "start": {"utc": n - age, "off": OFFSETS[k % len(OFFSETS)]},
+                            "depth": depth, "mup": [None, 1, 4, 7, -1][k % 5], "leeway": None, "sd": 960, "ts": 240})
+    for depth in BIG:
+        for mup in BIG:
+            k += 1
+            out.append({"nows": [base, base + 250_000], "start": "today", "depth": depth, "mup": mup,
+                        "leeway": None, "sd": 960, "ts": 240})
+            out.append({"nows": [base + 1, base + 8 * US], "start": {"utc": base - 3600 * US, "off": 0},
+                        "depth": depth, "mup": mup, "leeway": None, "sd": 960, "ts": 240})
+    for y in PAST_YEARS:
+        for start in ("today", "month", "year", "now"):
+            for (mo, d, tod) in ((1, 1, 30), (3, 1, 59), (12, 31, 86399)):
+                k += 1
+                n = day_us(y, mo, d) + tod * US + PHASES[k % len(PHASES)]
+                out.append({"nows": [n, n + US, n + 61 * US], "start": start, "depth": DEPTHS[k % len(DEPTHS)],
+                            "mup": [None, 7, 8, -1][k % 4], "leeway": None, "sd": 960, "ts": 240, "oracle_only": True})
+        n = day_us(y, 6, 15) + 1234567
+        out.append({"nows": [n, n + 5 * US], "start": {"utc": n - 90 * US - 500_000, "off": -210}, "depth": 60,
+                    "mup": 7, "leeway": None, "sd": 960, "ts": 240, "oracle_only": True})
+    far = day_us(3000, 6, 1) - 1
+    for depth in (2 ** 53, 10 ** 11):
+        out.append({"nows": [far], "start": "epoch", "depth": depth, "mup": 8, "leeway": None, "sd": 960, "ts": 240,
+                    "oracle_only": True})
+    return out
+
+
+def state_snapshot():
+    """module/class level objects the timing code could write to by mistake"""
+    from dashlive.mpeg.dash.timing import DashTiming
+    from dashlive.server.options.repository import OptionsRepository
+    d = OptionsRepository.get_default_options()
+    return (DashTiming.DEFAULT_TIMESHIFT_BUFFER_DEPTH, str(d.availabilityStartTime), d.timeShiftBufferDepth,
+            d.minimumUpdatePeriod, d.leeway, d.clockDrift,
+            None if _DEFAULTS is None else (str(_DEFAULTS.availabilityStartTime), _DEFAULTS.timeShiftBufferDepth,
+                                            _DEFAULTS.minimumUpdatePeriod, _DEFAULTS.leeway))
+
+
 def evaluate_direct(cases, ch: Channel):
     lines, spans = [], []
     for c in cases:
-        ls = driver_lines(c)
+        ls = [] if c.get("oracle_only") else driver_lines(c)
         spans.append((len(lines), len(ls)))
         lines += ls
     try:
@@ -674,11 +797,20 @@ def evaluate_direct(cases, ch: Channel):
     except Exception as e:  # noqa: BLE001
         ch.errors.append(f"driver: {e}")
         return
+    real_options({"start": "epoch", "depth": None, "mup": None})
+    snap = state_snapshot()
     for c, (a, n) in zip(cases, spans):
         results = run_direct(c)
         impl = [canon_direct(r) for r in results]
-        mo = model[a:a + n]
+        mo = impl if c.get("oracle_only") else model[a:a + n]
         ch.evaluations += len(results)
+        now_snap = state_snapshot()
+        if now_snap != snap:
+            ch.disagreements.append({"via": "direct", "what": "module/class level state changed by constructing DashTiming",
+                                     "case": human(c), "before": list(map(str, snap)), "after": list(map(str, now_snap))})
+            snap = now_snap
+        if c.get("oracle_only"):
+            ch.count("oracle_only(outside the model's domain)")
         skind = c["start"] if isinstance(c["start"], str) else "explicit"
         ch.count(f"start={skind}")
         ch.count("depth=" + ("absent" if c["depth"] is None else "<=0" if c["depth"] <= 0 else ">0"))
@@ -697,6 +829,8 @@ def evaluate_direct(cases, ch: Channel):
             if fails:
                 if any(is_rollover(f) for f in fails):
                     ch.count("hit:publish_step_back_across_rollover(known finding)")
+                if any(is_float_depth(f) for f in fails):
+                    ch.count("hit:depth_clamp_float_rounding(known finding)")
                 pred = (lambda cc: bool(unlisted(direct_fails(cc)))) if unlisted(fails) else \
                     (lambda cc: bool(direct_fails(cc)))
                 mini = shrink(c, pred)
@@ -711,9 +845,14 @@ def ch_livetiming(ctx) -> Channel:
         "(absent, <=0, >0) × reference (segment_duration, timescale): real DashTiming built through the real "
         "CGI option parser vs the Lean model, all eight observable fields per clock value; non-trivial = a "
         "history of >= 2 clock values in which at least one guard fired (day/month/year/zero-elapsed back-off, "
-        "depth clamp, publishTime quantisation, disabled mup, fractional or offset start); distinct by full case"))
+        "depth clamp, publishTime quantisation, disabled mup, fractional or offset start); distinct by full case. "
+        "A fixed, seed-independent grid runs first (grid_cases: clock grid incl. 2036/2038/2040/2100/3000/9999 and "
+        "7 sub-second phases × 5 symbolic starts, age grid around depth ± 1 s / ± 1 µs, numeric grid 2^31…2^63 for "
+        "depth × mup, far-past clocks and the known float class through the oracle only); the fields are read "
+        "from generate_manifest_context() and cross-checked with the attributes; module/class level defaults are "
+        "snapshotted around every case"))
     rng = ctx.rng("livetiming")
-    cases = corpus_cases() + [dict(w) for w in WITNESSES] + boundary_cases(ctx)
+    cases = corpus_cases() + [dict(w) for w in WITNESSES] + grid_cases() + boundary_cases(ctx)
     cases += [gen_case(rng) for _ in range(ctx.scale(5000, 60000))]
     evaluate_direct(cases, ch)
     return ch
@@ -760,6 +899,33 @@ class Http:
             self.bbb_ref = (b.segment_duration, b.timescale)
         self.cur = None
         self.clock = None
+        self.cur_defaults = None
+
+    def set_stream_defaults(self, sd):
+        """stored *stream defaults* of `tears` (Stream.defaults): the options a request leaves out"""
+        key = json.dumps(sd, sort_keys=True, default=str) if sd else None
+        if key == self.cur_defaults:
+            return
+        val = None
+        if sd:
+            val = {}
+            if "start" in sd:
+                val["availabilityStartTime"] = start_text(sd["start"])
+            if "depth" in sd:
+                val["timeShiftBufferDepth"] = sd["depth"]
+            if "mup" in sd:
+                val["minimumUpdatePeriod"] = sd["mup"]
+        with self.app.ctx() as models:
+            s = models.Stream.get(directory="tears")
+            s.defaults = val
+            models.db.session.commit()
+        self.cur_defaults = key
+
+    def prepare(self, c):
+        """the stored state a case needs (also used by replay): timing reference and stream defaults of tears"""
+        if c["stream"] == "tears":
+            self.set_ref(c["sd"], c["ts"])
+            self.set_stream_defaults(c.get("sdefaults"))
 
     def set_ref(self, sd, ts):
         if self.cur == (sd, ts):
@@ -778,12 +944,16 @@ class Http:
         with self.app.ctx() as models:
             s = models.Stream.get(directory="tears")
             s.timing_reference = self.orig_ref
+            s.defaults = None
             models.db.session.commit()
         self.cur = None
+        self.cur_defaults = None
 
     def url(self, c) -> str:
         q = []
-        if c["start"] is not None:
+        if c["start"] == "empty":
+            q.append("start=")                 # a falsy but legal spelling: the default applies
+        elif c["start"] is not None:
             q.append("start=" + urllib.parse.quote(start_text(c["start"]), safe=":"))
         for name, key in (("depth", "depth"), ("mup", "mup")):
             v = c[key]
@@ -801,6 +971,13 @@ class Http:
             wall = n + c.get("drift", 0) * US        # the handler subtracts the drift from the wall clock
             dt = EPOCH + datetime.timedelta(microseconds=wall)
             with self.appboot.Clock(dt):
+                if c.get("interleave"):
+                    # other streams / modes / option vectors between the requests of the case under test
+                    other = "tears" if c["stream"] == "bbb" else "bbb"
+                    for u in (f"/dash/vod/{c['stream']}/hand_made.mpd",
+                              f"/dash/live/{other}/hand_made.mpd?start=epoch&depth=5&mup=3&leeway=1",
+                              f"/dash/live/{c['stream']}/hand_made.mpd?start=now&depth=7200&mup=-1"):
+                        self.client.get(u)
                 resp = self.client.get(url)
             r = {"now": n, "status": resp.status_code}
             if resp.status_code == 200:
@@ -828,9 +1005,13 @@ class Http:
     def model_case(self, c) -> dict:
         """the option values the handler ends up with: CGI value, or the real default when absent"""
         d = self.defaults
-        start = c["start"] if c["start"] is not None else d.availabilityStartTime
-        depth = d.timeShiftBufferDepth if c["depth"] == "absent" else c["depth"]
-        mup = d.minimumUpdatePeriod if c["mup"] == "absent" else c["mup"]
+        sd = c.get("sdefaults") or {}
+        if c["start"] == "empty":
+            start = d.availabilityStartTime          # observed glue: `start=` selects the *server* default
+        else:
+            start = c["start"] if c["start"] is not None else sd.get("start", d.availabilityStartTime)
+        depth = sd.get("depth", d.timeShiftBufferDepth) if c["depth"] == "absent" else c["depth"]
+        mup = sd.get("mup", d.minimumUpdatePeriod) if c["mup"] == "absent" else c["mup"]
         return {"nows": c["nows"], "start": start, "depth": depth, "mup": mup, "leeway": None,
                 "sd": c["sd"], "ts": c["ts"]}
 
@@ -859,6 +1040,8 @@ def gen_http_case(rng, http: Http) -> dict:
             c["depth"] = rng.choice([None, 0, -5, 1, 30, 60, 61, 120])
     if rng.random() < .05 and isinstance(c["start"], str):
         c["drift"] = rng.choice([1, 10, 59, 3600])
+    if rng.random() < .3:
+        c["interleave"] = True
     return c
 
 
@@ -892,7 +1075,8 @@ def http_fails(http: Http, c, res=None) -> list[dict]:
 
 
 def evaluate_http(http: Http, cases, ch: Channel):
-    cases = sorted(cases, key=lambda c: (c["stream"], c["sd"], c["ts"]))   # few reference switches
+    cases = sorted(cases, key=lambda c: (c["stream"], c["sd"], c["ts"],
+                                         json.dumps(c.get("sdefaults"), sort_keys=True, default=str)))  # few DB writes
     lines, spans, mcs = [], [], []
     for c in cases:
         mc = http.model_case(c)
@@ -905,16 +1089,27 @@ def evaluate_http(http: Http, cases, ch: Channel):
     except Exception as e:  # noqa: BLE001
         ch.errors.append(f"driver: {e}")
         return
+    snap = state_snapshot()
     for c, mc, (a, n) in zip(cases, mcs, spans):
-        if c["stream"] == "tears":
-            http.set_ref(c["sd"], c["ts"])
+        http.prepare(c)
         res = http.get(c)
         renders_mup = "minimumUpdatePeriod" in http.manifests[c["manifest"]]
         impl = [canon_http(r, renders_mup) for r in res]
         mo = [canon_http_model(m, r, renders_mup) for m, r in zip(model[a:a + n], res)]
         ch.evaluations += len(res)
+        now_snap = state_snapshot()
+        if now_snap != snap:
+            ch.disagreements.append({"via": "http", "what": "module/class level state changed by serving a manifest",
+                                     "case": human_http(c), "url": http.url(c),
+                                     "before": list(map(str, snap)), "after": list(map(str, now_snap))})
+            snap = now_snap
+        if c.get("sdefaults"):
+            ch.count("options_from_stream_defaults")
+        if c.get("interleave"):
+            ch.count("interleaved_with_other_streams_modes_options")
         ch.count("manifest=" + c["manifest"])
-        skind = "absent" if c["start"] is None else c["start"] if isinstance(c["start"], str) else "explicit(url)"
+        skind = "absent" if c["start"] is None else ("empty" if c["start"] == "empty" else c["start"]) \
+            if isinstance(c["start"], str) else "explicit(url)"
         ch.count(f"start={skind}")
         ch.count("stream=" + c["stream"])
         if not isinstance(c["start"], (str, type(None))) or any(
@@ -941,8 +1136,7 @@ def human_http(c) -> dict:
 
 def shrink_http(http: Http, c, only_unlisted: bool = False):
     def f(cc):
-        if cc["stream"] == "tears":
-            http.set_ref(cc["sd"], cc["ts"])
+        http.prepare(cc)
         fl = http_fails(http, cc)
         return bool(unlisted(fl) if only_unlisted else fl)
     best = c
@@ -962,8 +1156,7 @@ def shrink_http(http: Http, c, only_unlisted: bool = False):
             cand = dict(best, **{k: "absent"})
             if f(cand):
                 best = cand
-    if best["stream"] == "tears":
-        http.set_ref(best["sd"], best["ts"])
+    http.prepare(best)
     return best
 
 
@@ -991,6 +1184,30 @@ def fixed_http_cases(http: Http):
         out.append(dict(base, nows=[t, t + 5 * US], start="now", depth=None, mup="absent"))
         out.append(dict(base, stream="tears", sd=10, ts=100, nows=[t, t + US], start="today", depth="absent",
                         mup="absent"))
+    return out
+
+
+def defaults_http_cases(http: Http):
+    """every option given by stored stream defaults, by the URL (overriding them) and left to the server default;
+    `start=` (empty); the same URL at two clocks; all interleaved with other streams, modes and option vectors"""
+    t = day_us(2024, 2, 29) + 30 * US + 500_000
+    base = {"stream": "tears", "sd": 960, "ts": 240, "nows": [t, t + 499_999, t + 45 * US], "interleave": True}
+    sds = [{"start": "today", "depth": 30, "mup": 7},
+           {"start": {"utc": t - 86400 * US // 2 - 250_000, "off": 330}, "depth": -5, "mup": 0},
+           {"start": "now", "depth": 0},
+           {"mup": 61}]
+    out = []
+    names = sorted(http.manifests)
+    for i, sd in enumerate(sds):
+        for j, name in enumerate(names):
+            mup_ok = "minimumUpdatePeriod" in http.manifests[name]
+            out.append(dict(base, manifest=name, sdefaults=sd, start=None, depth="absent", mup="absent"))
+            out.append(dict(base, manifest=name, sdefaults=sd, start="empty", depth=45 if j % 2 else None,
+                            mup=(3 if mup_ok else "absent")))
+            out.append(dict(base, manifest=name, sdefaults=sd, start="month", depth="absent", mup="absent"))
+    for name in names:
+        out.append({"stream": "bbb", "sd": http.bbb_ref[0], "ts": http.bbb_ref[1], "manifest": name,
+                    "nows": [t, t + 45 * US], "start": "empty", "depth": "absent", "mup": "absent", "interleave": True})
     return out
 
 
@@ -1026,7 +1243,9 @@ def ch_manifest(ctx) -> Channel:
         "tears, tears with synthetic timing references) under a controlled clock, URL-encoded start/depth/mup: "
         "MPD@availabilityStartTime (instant and offset), @publishTime, @timeShiftBufferDepth, "
         "@minimumUpdatePeriod vs the model, including 9-request sequences across midnight / 00:01:00 / month and year "
-        "boundaries for every start kind (publishTime monotonicity and start stability on served manifests); "
+        "boundaries for every start kind (publishTime monotonicity and start stability on served manifests), options "
+        "taken from stored stream defaults / the URL / the server default, `start=` (empty), requests interleaved "
+        "with other streams, vod mode and other option vectors, module/class level defaults snapshotted per case; "
         "non-trivial = explicit start given in the URL or a stream at most "
         "one day + one minute old (a back-off/clamp region); distinct by manifest, stream and case"))
     try:
@@ -1035,7 +1254,7 @@ def ch_manifest(ctx) -> Channel:
         ch.errors.append(f"app boot: {type(e).__name__}: {e}")
         return ch
     rng = ctx.rng("manifest")
-    cases = fixed_http_cases(http) + rollover_http_cases(ctx, http) + [gen_http_case(rng, http) for _ in range(ctx.scale(600, 8000))]
+    cases = fixed_http_cases(http) + defaults_http_cases(http) + rollover_http_cases(ctx, http) + [gen_http_case(rng, http) for _ in range(ctx.scale(600, 8000))]
     try:
         evaluate_http(http, cases, ch)
     finally:
@@ -1081,8 +1300,7 @@ def search(ctx, disagreements):
         hseeds = [{k: v for k, v in d["case"].items() if k != "nows_iso"} for d in disagreements
                   if d.get("via") == "http" and "case" in d]
         for c in hseeds + fixed_http_cases(http) + [gen_http_case(rng, http) for _ in range(ctx.scale(1500, 6000))]:
-            if c["stream"] == "tears":
-                http.set_ref(c["sd"], c["ts"])
+            http.prepare(c)
             f = unlisted(http_fails(http, c))
             if f:
                 mini = shrink_http(http, c, only_unlisted=True)
@@ -1104,8 +1322,7 @@ def _run_failure(f: dict) -> list:
     if via == "http":
         http = get_http()
         try:
-            if c["stream"] == "tears":
-                http.set_ref(c["sd"], c["ts"])
+            http.prepare(c)
             return http_fails(http, c)
         finally:
             http.restore()
@@ -1119,7 +1336,7 @@ def replay(ctx, payload):
     fails = _run_failure(f)
     # a replay of the known roll-over class fails when the step-back is still there; any other replay fails
     # when something outside that class is still wrong
-    rel = fails if f.get("class") == ROLLOVER_CLASS else unlisted(fails)
+    rel = fails if f.get("class") in (ROLLOVER_CLASS, FLOAT_CLASS) else unlisted(fails)
     return {"fails": bool(rel), "failures": rel[:5], "known_rollover_step_backs": len(fails) - len(unlisted(fails)),
             "input": f.get("case") or {"sd": f.get("sd"), "ts": f.get("ts")}}
 
@@ -1128,6 +1345,8 @@ def replay_finding(ctx, finding):
     fails = _run_failure(finding["witness"])
     if (finding.get("match") or {}).get("class") == ROLLOVER_CLASS:
         return any(is_rollover(f) for f in fails)      # the step-back itself, inside the proved bound
+    if (finding.get("match") or {}).get("class") == FLOAT_CLASS:
+        return any(is_float_depth(f) for f in fails)
     return bool(fails)
 
 
@@ -1137,6 +1356,9 @@ def matches_finding(finding, failure):
     m = finding.get("match")
     if not m:
         return False
+    if m.get("class") == FLOAT_CLASS:
+        fl = failure.get("failures") or []
+        return failure.get("class") == FLOAT_CLASS and bool(fl) and all(is_float_depth(x) for x in fl)
     if m.get("class") == ROLLOVER_CLASS:
         # exactly that class: every failure of the record is a publishTime step-back between two clocks whose
         # resolved availabilityStartTime differ, smaller than one period
